@@ -407,8 +407,9 @@ PLUGS = {
                 with_defaultdicts(gen.scenarios_tagged(seed + 9, sizes(tier, 600, 8000)), seed),
                 project=proj_full, oracles=[], disagreement_is_failure=True),
     'C13': dict(streams=lambda seed, tier: gen.scenarios_cond(seed, sizes(tier, 2000, 30000)) + gen.scenarios_cond_twins(seed, sizes(tier, 600, 8000)) +
-                [sc for sc in gen.scenarios_handlers(seed, sizes(tier, 2500, 30000)) if '"cond"' in json.dumps(sc['ty'])],
-                project=proj_full, oracles=['c13'], disagreement_is_failure=True),
+                [sc for sc in gen.scenarios_handlers(seed, sizes(tier, 2500, 30000)) if '"cond"' in json.dumps(sc['ty'])] +
+                gen.scenarios_bcast(seed, sizes(tier, 400, 6000)),
+                project=proj_full, oracles=['c13', 'c13b'], disagreement_is_failure=True),
     'C14': dict(streams=lambda seed, tier: with_oracles(gen.scenarios_construct(seed, sizes(tier, 1500, 25000)), ['c14']) +
                 gen.scenarios_tuplelayout(seed + 2, sizes(tier, 400, 6000)) + gen.scenarios_inherited_hook(seed, sizes(tier, 200, 3000), op='from_data'),
                 project=proj_full, oracles=['c14'], disagreement_is_failure=True),
